@@ -193,8 +193,12 @@ Section P.
       2:{ inversion Hsp; subst x. unfold meets. cbn. repeat split. apply flagged_meets_err_sent. }
       unfold run_expect in Hsp.
       destruct (types_match md (c_args c)) eqn:Tm.
-      2:{ (* every type mismatch is in one of the classes *)
-          exfalso. destruct (md_ins md); [discriminate|]. destruct (args_ok md (c_args c)); discriminate. }
+      2:{ (* a type mismatch outside the two leniency classes: rejected with InvalidArgs, handler not run *)
+          destruct (args_ok md (c_args c)) eqn:Ea.
+          { exfalso. destruct (md_ins md); discriminate. }
+          inversion Hsp; subst x.
+          destruct (md_mut md) eqn:Mm; [rewrite (gen_call_mut_same _ _ _ Fm Mm)|];
+            unfold run_method; rewrite Ea; unfold meets; cbn; repeat split; apply flagged_meets_err_sent. }
       inversion Hsp; subst x; clear Hsp.
       apply find_inst_in in Ef as [Hin Hname].
       pose proof (find_method_name _ _ _ Fm) as [Hmn Hmin].
@@ -219,7 +223,10 @@ Section P.
           apply flagged_meets_err_sent. }
       unfold run_expect in Hsp.
       destruct (types_match md (c_args c)) eqn:Tm.
-      2:{ exfalso. destruct (md_ins md); [discriminate|]. destruct (args_ok md (c_args c)); discriminate. }
+      2:{ destruct (args_ok md (c_args c)) eqn:Ea.
+          { exfalso. destruct (md_ins md); discriminate. }
+          inversion Hsp; subst x. unfold std_call. rewrite (std_methods_async _ _ _ Hd Fm), Ea.
+          unfold meets. cbn. repeat split. apply flagged_meets_err_sent. }
       rewrite andb_true_r in Hpc.
       unfold std_call. rewrite (std_methods_async _ _ _ Hd Fm), (types_match_args_ok _ _ Tm).
       unfold std_expect in Hsp.
@@ -239,7 +246,7 @@ Section P.
     get_child root (segs_of path) = Some n -> find_inst n iface = Some i ->
     find_method (in_desc i) member = Some md ->
     in_tys md <> [] -> types_match md (c_args c) = false -> ~ flattened md (c_args c) ->
-    dispatch bh root c = (reply_only (RErr EZBus None), root).
+    dispatch bh root c = (reply_only (RErr EInvalidArgs None), root).
   Proof.
     intros Ep Ei Em En Ef Fm Hne Tm Hfl.
     unfold dispatch. rewrite Ep, Ei, Em, En, Ef. unfold user_call, gen_call. rewrite Fm.
